@@ -26,7 +26,9 @@ _HOT_DEFAULT = [
     "arg:Cylinder.radiusHigh", "arg:Cylinder.radiusLow", "arg:Cylinder.height", "arg:CS.Square.x", "arg:CS.Square.y",
     "arg:Revolve.degrees", "pts:nan", "arg:SmoothOut.minSmoothness", "arg:SmoothOut.minSharpAngle", "arg:SetTolerance.tolerance", "arg:Simplify.tolerance",
 ]
-HOT = [h for h in _os.environ.get("C09_HOT", ",".join(_HOT_DEFAULT)).split(",") if h]
+# The defects behind the HOT list are fixed in /repo (see known_findings.json), so the throttle is
+# off by default; C09_HOT=<labels> re-enables it (e.g. when checking an older tree).
+HOT = [h for h in _os.environ.get("C09_HOT", "").split(",") if h]
 
 CHECK = {
     "id": "C09",
